@@ -1631,3 +1631,292 @@ func runSpillPartialsPairing(c *Ctx, rule string) {
 		c.OK(rule, "nextResultFromSpills recombination", pos, "consumeAsPartial")
 	}
 }
+
+// ---- C11-O5: Pull(done) always stops the read-ahead before it returns.
+//
+// zngio.Reader.Close is scanner.Pull(true).  Its contract ("no read on the underlying reader
+// after Close returns") is what lets format auto-detection rewind the input and try the next
+// format.  Every return taken with done == true must have cancelled the scan and drained the
+// channel of result channels (which the parser goroutine closes when it exits).
+func runPullDoneStopsReader(c *Ctx, rule string) {
+	p := c.P
+	c.Rule(rule, "scanner.Pull(true) cancels and waits: every path to a return that is not known to have done == false passes through s.cancel() and through a receive on s.resultChCh (the wait for the parser goroutine), whatever the scanner's eof/err state")
+	fn := p.Func("(*zio/zngio.scanner).Pull")
+	if fn == nil {
+		c.Undecided(rule, "(*zio/zngio.scanner).Pull", "anchor does not resolve")
+		return
+	}
+	done := fn.Params[1]
+	// edges on which done is known false are not of interest
+	edgeOK := func(a, b *ssa.BasicBlock) bool {
+		iff, ok := a.Instrs[len(a.Instrs)-1].(*ssa.If)
+		if !ok || iff.Cond != ssa.Value(done) {
+			return true
+		}
+		return a.Succs[0] == b // only the true edge
+	}
+	isRet := func(in ssa.Instruction) bool { _, ok := in.(*ssa.Return); return ok }
+	isCancel := func(in ssa.Instruction) bool {
+		ci, ok := in.(ssa.CallInstruction)
+		if !ok {
+			return false
+		}
+		v := ci.Common().Value
+		return isFieldLoad(v, "cancel")
+	}
+	isDrain := func(in ssa.Instruction) bool {
+		switch x := in.(type) {
+		case *ssa.UnOp:
+			return x.Op == token.ARROW && isFieldLoad(x.X, "resultChCh")
+		case *ssa.Next:
+			return false
+		case *ssa.Select:
+			return false
+		}
+		return false
+	}
+	// a path on which done may be true must contain the If(done): require that the test exists
+	hasTest := false
+	for _, b := range fn.Blocks {
+		if iff, ok := b.Instrs[len(b.Instrs)-1].(*ssa.If); ok && iff.Cond == ssa.Value(done) {
+			hasTest = true
+		}
+	}
+	if !hasTest {
+		c.Undecided(rule, "(*zio/zngio.scanner).Pull", "no test of the done parameter found")
+		return
+	}
+	// returns reachable without knowing done == false and without the action
+	type need struct {
+		name string
+		is   func(ssa.Instruction) bool
+	}
+	for _, nd := range []need{{"s.cancel()", isCancel}, {"the drain of s.resultChCh", isDrain}} {
+		// only returns that lie on a path through the true edge of If(done), or before any test of done
+		var bad ssa.Instruction
+		// (1) before the test: a return reachable from entry without passing any If(done)
+		noTest := func(a, b *ssa.BasicBlock) bool {
+			iff, ok := a.Instrs[len(a.Instrs)-1].(*ssa.If)
+			return !ok || iff.Cond != ssa.Value(done)
+		}
+		bad = reachAvoidingEdges(fn, nil, nd.is, isRet, noTest)
+		// (2) through the true edge
+		if bad == nil {
+			for _, b := range fn.Blocks {
+				iff, ok := b.Instrs[len(b.Instrs)-1].(*ssa.If)
+				if !ok || iff.Cond != ssa.Value(done) {
+					continue
+				}
+				// was the action already performed before this test on every path?  (not in this code base)
+				first := b.Succs[0].Instrs[0]
+				if nd.is(first) {
+					continue
+				}
+				if isRet(first) {
+					bad = first
+				} else if r := reachAvoidingEdges(fn, first, nd.is, isRet, edgeOK); r != nil {
+					bad = r
+				}
+			}
+		}
+		construct := "(*zio/zngio.scanner).Pull(done) -> " + nd.name
+		if bad != nil {
+			c.Fail(rule, construct, bad.Pos(), "a return can be taken with done == true without "+nd.name+": after an error ended the scan the read-ahead goroutine is still reading the input, so Reader.Close returns while reads continue — format auto-detection then rewinds and re-reads the same input concurrently (rows silently lost, or a panic in a goroutine nobody recovers)")
+		} else {
+			c.OK(rule, construct, fn.Pos(), "on every path with done possibly true")
+		}
+	}
+}
+
+// ---- C10-S5 / C08-P4: the output form of an aggregation is chosen by partialsOut.
+func runPartialOutputForm(c *Ctx, rule string) {
+	p := c.P
+	c.Rule(rule, "whether a group-by row is emitted in partial or in final form is decided by the aggregator's partialsOut flag (or a constant, for spilling) at every place that builds result rows — in memory and from spill files alike; partialsIn only selects how inputs are consumed")
+	n := 0
+	var classify func(v ssa.Value, fn *ssa.Function, depth int) string
+	classify = func(v ssa.Value, fn *ssa.Function, depth int) string {
+		v = stripConv(v)
+		switch x := v.(type) {
+		case *ssa.Const:
+			return "const"
+		case *ssa.UnOp:
+			if x.Op == token.NOT {
+				return classify(x.X, fn, depth)
+			}
+			if fa, ok := x.X.(*ssa.FieldAddr); ok {
+				return "field:" + fieldName(fa.X.Type(), fa.Field)
+			}
+		case *ssa.Parameter:
+			if depth > 2 {
+				return "?"
+			}
+			idx := -1
+			for i, prm := range fn.Params {
+				if prm == x {
+					idx = i
+				}
+			}
+			res := ""
+			for _, s := range callSitesWhere(p, func(cc *ssa.CallCommon, _ string) bool { return cc.StaticCallee() == fn }) {
+				args := s.ci.Common().Args
+				if idx < 0 || idx >= len(args) {
+					return "?"
+				}
+				r := classify(args[idx], s.fn, depth+1)
+				if r == "const" {
+					continue
+				}
+				if res == "" {
+					res = r
+				} else if res != r {
+					return "mixed:" + res + "," + r
+				}
+			}
+			if res == "" {
+				return "const"
+			}
+			return res
+		}
+		return "?"
+	}
+	for _, fn := range p.FuncsIn("runtime/sam/op/groupby") {
+		for _, ci := range allCalls(fn) {
+			cc := ci.Common()
+			if !cc.IsInvoke() || cc.Method.Name() != "ResultAsPartial" {
+				continue
+			}
+			n++
+			blk := ci.(ssa.Instruction).Block()
+			how := ""
+			for _, gb := range fn.Blocks {
+				iff, ok := gb.Instrs[len(gb.Instrs)-1].(*ssa.If)
+				if !ok || !gb.Dominates(blk) || gb == blk {
+					continue
+				}
+				if !(trueEdgeDominates(iff.Cond, blk) || falseEdgeDominates(iff.Cond, blk)) {
+					continue
+				}
+				if r := classify(iff.Cond, fn, 0); r != "?" {
+					how = r
+				}
+			}
+			construct := constructName(fn) + " chooses the partial form #" + sprint(n)
+			switch how {
+			case "field:partialsOut", "const":
+				c.OK(rule, construct, ci.Pos(), "controlled by "+how)
+			case "":
+				c.Undecided(rule, construct, "the condition selecting ResultAsPartial was not recognised")
+			default:
+				c.Fail(rule, construct, ci.Pos(), "the partial form is selected by "+how+" instead of partialsOut: in a parallel plan whose aggregation spills, the per-leg summarize (partialsOut) emits final values and the combining summarize (partialsIn) emits partials — avg comes out as {sum,count}, dcount as a sketch, or the combiner fails on a missing partial field")
+			}
+		}
+	}
+	if n < 1 {
+		c.Undecided(rule, "runtime/sam/op/groupby", "no place choosing the partial form found")
+	}
+}
+
+// ---- C05-P3: one name-binding table per serialized type value.
+//
+// A type value writes a named type in full the first time (name-def) and by name afterwards
+// (name-ref); the reader binds names in the order it meets them.  Both only agree if the writer
+// keeps ONE table for the whole value: every component type must be serialized by the recursive
+// call that carries the same table, never through the public entry point, which starts a new one.
+func runTypeValueOneTable(c *Ctx, rule string) {
+	p := c.P
+	c.Rule(rule, "a type value is serialized with a single name-binding table: inside appendTypeValue every component type goes through the recursive call with the function's own typedefs argument, and the public AppendTypeValue (fresh table) is not called from it")
+	fn := p.Func("super.appendTypeValue")
+	if fn == nil {
+		c.Undecided(rule, "super.appendTypeValue", "anchor does not resolve")
+		return
+	}
+	var tbl *ssa.Parameter
+	for _, prm := range fn.Params {
+		if prm.Name() == "typedefs" {
+			tbl = prm
+		}
+	}
+	if tbl == nil {
+		c.Undecided(rule, "super.appendTypeValue", "parameter typedefs not found")
+		return
+	}
+	n := 0
+	fns := append([]*ssa.Function{fn}, fn.AnonFuncs...)
+	for _, f := range fns {
+		for _, ci := range allCalls(f) {
+			switch calleeName(ci.Common()) {
+			case "super.AppendTypeValue":
+				n++
+				c.Fail(rule, "super.appendTypeValue component #"+sprint(n), ci.Pos(), "a component type is serialized through the public entry point, which starts a fresh name table: a name rebound inside that component is not recorded in the enclosing table, so a later reference to the earlier binding is written as a bare name-ref that the reader resolves to the wrong type — the type value no longer denotes the type, and translation to another context (and the ZNG stream that carries it) silently changes types")
+			case "super.appendTypeValue":
+				n++
+				args := ci.Common().Args
+				ok := len(args) == 3 && (args[2] == ssa.Value(tbl))
+				if !ok && len(args) == 3 {
+					if u, isU := args[2].(*ssa.UnOp); isU {
+						if fv, isFV := u.X.(*ssa.FreeVar); isFV && fv.Name() == "typedefs" {
+							ok = true
+						}
+					}
+					if fv, isFV := args[2].(*ssa.FreeVar); isFV && fv.Name() == "typedefs" {
+						ok = true
+					}
+				}
+				if ok {
+					c.OK(rule, "super.appendTypeValue component #"+sprint(n), ci.Pos(), "recursive call with the same table")
+				} else {
+					c.Fail(rule, "super.appendTypeValue component #"+sprint(n), ci.Pos(), "the recursive call does not pass the function's own name table")
+				}
+			}
+		}
+	}
+	if n < 6 {
+		c.Undecided(rule, "super.appendTypeValue", "fewer than 6 component serializations found ("+sprint(n)+")")
+	}
+}
+
+// ---- C10-R1: a group-by row is stamped with the running maximum of the sorted key.
+//
+// On sorted input a row is released as soon as its stamp is below the running maximum of the
+// primary key.  Stamping a new row with the maximum seen so far (not with its own key) means a row
+// can only be released after the maximum has advanced past everything seen when the row was
+// created — whatever the comparator thinks of the row's own key (nulls are ordered differently by
+// the input's sort and by the release comparator).
+func runGroupRowStamp(c *Ctx, rule string) {
+	p := c.P
+	c.Rule(rule, "early release on sorted input is conservative: the stamp stored in a new group-by row (Row.groupval) is the running maximum of the primary key (the result of updateMaxTableKey / the maxTableKey field), not the row's own key")
+	fn := p.Func("(*runtime/sam/op/groupby.Aggregator).Consume")
+	if fn == nil {
+		c.Undecided(rule, "(*runtime/sam/op/groupby.Aggregator).Consume", "anchor does not resolve")
+		return
+	}
+	n := 0
+	for _, b := range fn.Blocks {
+		for _, in := range b.Instrs {
+			st, ok := in.(*ssa.Store)
+			if !ok {
+				continue
+			}
+			fa, ok := st.Addr.(*ssa.FieldAddr)
+			if !ok || namedOf(fa.X.Type()) != "runtime/sam/op/groupby.Row" || fieldName(fa.X.Type(), fa.Field) != "groupval" {
+				continue
+			}
+			n++
+			fromMax := dependsOn(st.Val, func(v ssa.Value) bool {
+				if call, ok := v.(*ssa.Call); ok && calleeName(&call.Call) == "(*runtime/sam/op/groupby.Aggregator).updateMaxTableKey" {
+					return true
+				}
+				return isFieldLoad(v, "maxTableKey")
+			})
+			construct := "(*runtime/sam/op/groupby.Aggregator).Consume stamps a new row"
+			if fromMax {
+				c.OK(rule, construct, st.Pos(), "with the running maximum")
+			} else {
+				c.Fail(rule, construct, st.Pos(), "a new row is stamped with something other than the running maximum of the primary key: a row whose own key compares below the maximum (null keys on descending input) is released at the end of the batch that created it while more records of the same key are still to come, so one key is emitted several times with split aggregates")
+			}
+		}
+	}
+	if n == 0 {
+		c.Undecided(rule, "(*runtime/sam/op/groupby.Aggregator).Consume", "no store to Row.groupval found")
+	}
+}
